@@ -25,14 +25,15 @@ CORE_KINDS = [
     "overriding-method", "self-method", "self-inherited-method", "method-on-param", "method-on-returned",
     "callback-positional", "callback-keyword", "callback-bound-method", "returned-closure", "returned-function",
     "returned-function-local", "returned-param", "stored-variable", "stored-list", "stored-list-read", "stored-dict",
-    "stored-field", "stored-field-self", "cond-alias", "recursion", "mutual-recursion", "recursive-method",
+    "stored-field", "stored-field-self", "stored-list-loop", "stored-dict-loop", "method-on-list-element", "cond-alias", "recursion", "mutual-recursion", "recursive-method",
 ]
 EXT_KINDS = [
     "self-dispatch-subclass", "diamond-init", "diamond-class-attr", "super-init", "super-method", "explicit-base-init", "closure-captured", "default-param", "staticmethod",
-    "classmethod", "lambda", "class-attr-method", "diamond-method",
+    "classmethod", "lambda", "class-attr-method", "diamond-method", "stored-list-append",
 ]
 ALL_KINDS = CORE_KINDS + EXT_KINDS
-VIAS = ["local", "from-import", "module-attribute"]
+VIAS = ["local", "from-import", "from-import-pkg", "from-import-rel", "module-attribute", "module-attribute-class", "module-attribute-base",
+        "module-attribute-value"]
 
 
 class Chooser:
@@ -88,9 +89,11 @@ class Ent:
 
 
 class Mod:
-    def __init__(self, name, rank, counter=None):
+    def __init__(self, name, rank, counter=None, pkg=None):
         self.name = name
-        self.file = name + ".py"
+        self.pkg = pkg                       # None or the package directory the module lives in
+        self.file = (pkg + "/" if pkg else "") + name + ".py"
+        self.impname = (pkg + "." if pkg else "") + name
         self.rank = rank
         self._shared = counter if counter is not None else [0]
         self.imports = {}        # key -> (style, local name)
@@ -132,7 +135,7 @@ class Scope:
 
 
 class Gen:
-    def __init__(self, ch, avoid=(), extended=True, max_files=3, size=None):
+    def __init__(self, ch, avoid=(), extended=True, max_files=3, size=None, no_classes=False):
         self.ch = ch
         # avoid: set of (kind or '*', via or '*') the generator must not emit (open known findings)
         self.avoid = set(tuple(a) for a in avoid)
@@ -143,6 +146,7 @@ class Gen:
         self.stepped = {}        # "kind/via" -> count
         self.self_calls = []     # {"line": Line, "cls": lexical class, "name": method name}
         self.size = size
+        self.no_classes = no_classes      # step-over for the --enable-p2 finding: programs without any class
 
     # -- bookkeeping ------------------------------------------------------------------------
     def avoided(self, kind, via="local"):
@@ -173,43 +177,67 @@ class Gen:
             out.append(e)
         return out
 
-    def ref(self, scope, ent, value_use=False):
-        """-> (expression, via) naming module-level entity `ent` from scope's module, adding an import if needed."""
+    def ref(self, scope, ent, value_use=False, as_base=False, mod_value=False):
+        """-> (expression, via) naming module-level entity `ent` from scope's module, adding an import if needed.
+        value_use: the name is used as a value (argument, container element, ...) - always a plain name then, unless
+        mod_value asks for the attribute form (g = m.f)."""
         mod = scope.mod
         if ent.mod is mod:
             return ent.name, "local"
         key = (ent.mod.name, ent.name)
         mkey = (ent.mod.name, None)
+        if ent.typ == "class":
+            via_mod = "module-attribute-base" if as_base else "module-attribute-class"
+        elif mod_value:
+            via_mod = "module-attribute-value"
+        else:
+            via_mod = "module-attribute"
+        attr_ok = (not value_use) or mod_value
         if key in mod.imports:
-            style, local = mod.imports[key]
-            return local, "from-import"
-        if mkey in mod.imports and not value_use:
+            style, local, via_from = mod.imports[key]
+            return local, via_from
+        if mkey in mod.imports and attr_ok and not self.avoided_via(via_mod):
             style, local = mod.imports[mkey]
-            return "%s.%s" % (local, ent.name), "module-attribute"
+            return "%s.%s" % (local, ent.name), via_mod
         # choose a style
-        styles = ["from", "from", "from-as", "import", "import", "import-as"]
-        if value_use:
-            styles = ["from", "from", "from-as"]
+        styles = ["from", "from", "from-as"]
+        if attr_ok:
+            styles = styles + (["use-module"] * 4 if mkey in mod.imports else ["import", "import", "import-as"])
         style = self.ch.pick(styles)
-        if style in ("import", "import-as") and self.avoided_via("module-attribute"):
+        if style in ("import", "import-as", "use-module") and self.avoided_via(via_mod):
             style = "from"
+        if style == "use-module":
+            return "%s.%s" % (mod.imports[mkey][1], ent.name), via_mod
+        target = ent.mod
+        relative = bool(target.pkg) and target.pkg == mod.pkg and self.ch.chance(60)
+        from_mod = ("." + target.name) if relative else target.impname
+        via_from = "from-import-rel" if relative else ("from-import-pkg" if target.pkg else "from-import")
+        if style in ("from", "from-as") and via_from != "from-import" and self.avoided_via(via_from):
+            # packaged helpers cannot be named without a dotted import; fall back to the absolute form
+            relative, from_mod, via_from = False, target.impname, "from-import-pkg"
         if style == "from":
-            mod.imports[key] = (style, ent.name)
-            mod.import_lines.append("from %s import %s" % (ent.mod.name, ent.name))
-            return ent.name, "from-import"
+            mod.imports[key] = (style, ent.name, via_from)
+            mod.import_lines.append("from %s import %s" % (from_mod, ent.name))
+            return ent.name, via_from
         if style == "from-as":
-            local = "%s_%s" % (ent.name, ent.mod.name[-1])
-            mod.imports[key] = (style, local)
-            mod.import_lines.append("from %s import %s as %s" % (ent.mod.name, ent.name, local))
-            return local, "from-import"
+            local = "%s_%s" % (ent.name, target.name[-1])
+            mod.imports[key] = (style, local, via_from)
+            mod.import_lines.append("from %s import %s as %s" % (from_mod, ent.name, local))
+            return local, via_from
         if style == "import":
-            mod.imports[mkey] = (style, ent.mod.name)
-            mod.import_lines.append("import %s" % ent.mod.name)
-            return "%s.%s" % (ent.mod.name, ent.name), "module-attribute"
-        local = "al_" + ent.mod.name
+            mod.imports[mkey] = (style, target.name)
+            if target.pkg:
+                mod.import_lines.append("from %s import %s" % (target.pkg, target.name))
+            else:
+                mod.import_lines.append("import %s" % target.name)
+            return "%s.%s" % (target.name, ent.name), via_mod
+        local = "al_" + target.name
         mod.imports[mkey] = (style, local)
-        mod.import_lines.append("import %s as %s" % (ent.mod.name, local))
-        return "%s.%s" % (local, ent.name), "module-attribute"
+        if target.pkg:
+            mod.import_lines.append("from %s import %s as %s" % (target.pkg, target.name, local))
+        else:
+            mod.import_lines.append("import %s as %s" % (target.name, local))
+        return "%s.%s" % (local, ent.name), via_mod
 
     def avoided_via(self, via):
         for k, v in self.avoid:
@@ -275,8 +303,8 @@ class Gen:
         """via of something that depends on the class hierarchy of cls: module-attribute wins if any base link
         on the way is written as module attribute."""
         for c in self.mro(cls):
-            if getattr(c, "base_via", "local") == "module-attribute":
-                return "module-attribute"
+            if getattr(c, "base_via", "local") == "module-attribute-base":
+                return "module-attribute-base"
         return via
 
     # -- definitions ------------------------------------------------------------------------
@@ -302,6 +330,8 @@ class Gen:
     def def_ho(self, mod):
         """higher-order functions: the call line of the callback is labelled here."""
         flavour = self.ch.pick(["pos", "pos", "kw", "kw", "bm", "default", "pos2"])
+        if flavour == "bm" and self.no_classes:
+            flavour = "pos"
         kind = {"pos": "callback-positional", "pos2": "callback-positional", "kw": "callback-keyword",
                 "bm": "callback-bound-method", "default": "default-param"}[flavour]
         if self.avoided(kind):
@@ -520,12 +550,13 @@ class Gen:
         if len(bases) == 2 and self.self_dispatch_changes(bases, []) and self.avoided("self-dispatch-subclass"):
             bases = bases[:1]
         for b in bases:
-            expr, via = self.ref(tmp, b)
+            expr, via = self.ref(tmp, b, as_base=True)
             base_exprs.append(expr)
-            if via == "module-attribute":
-                base_via = "module-attribute"
-            elif via == "from-import" and base_via == "local":
-                base_via = "from-import"
+            if via == "module-attribute-base":
+                base_via = "module-attribute-base"
+            elif via.startswith("from-import") and base_via == "local":
+                base_via = via
+
         e = self.new_ent(mod, name, "class", bases=bases, base_via=base_via, methods={}, init=None, init_line=None,
                          diamond=len(bases) == 2)
         out = mod.body
@@ -672,9 +703,11 @@ class Gen:
             return
         self.stmt(sc)
 
-    def construct(self, sc, cls, cbref=None):
-        """emit `o = K(...)`; returns the variable name"""
-        expr, via = self.ref(sc, cls)
+    def construct(self, sc, cls, cbref=None, attr_form=False):
+        """emit `o = K(...)`; returns the variable name.  The class is named m.K only when attr_form is set (the
+        scenarios whose dependent call lines are labelled with the constructor's via); self.ctor_via tells which."""
+        expr, via = self.ref(sc, cls, value_use=not attr_form)
+        self.ctor_via = via
         definer, kind = self.init_info(cls)
         o = sc.mod.fresh("o")
         if kind is None:
@@ -820,8 +853,8 @@ class Gen:
             if not cs:
                 return False
             cls = ch.pick(cs + [c for c in cs if c.bases] * 2)
-            o = self.construct(sc, cls)
-            via = self.ref(sc, cls)[1]
+            o = self.construct(sc, cls, attr_form=True)
+            via = self.ctor_via
             n = ch.pick([1, 2, 2, 3])
             for _ in range(n):
                 self.method_call(sc, o, cls, via)
@@ -890,10 +923,10 @@ class Gen:
             fs = self.visible(sc, "func")
             if not fs or self.avoided("stored-variable"):
                 return False
-            fexpr = self.ref(sc, ch.pick(fs), value_use=True)[0]
+            fexpr, fvia = self.ref(sc, ch.pick(fs), value_use=True, mod_value=ch.chance(50))
             g = sc.mod.fresh("g")
             sc.emit("%s = %s" % (g, fexpr))
-            self.call_func_line(sc, g, "stored-variable", "local")
+            self.call_func_line(sc, g, "stored-variable", fvia if fvia == "module-attribute-value" else "local")
             return True
         if which == "list":
             fs = self.visible(sc, "func")
@@ -915,6 +948,56 @@ class Gen:
                 g = sc.mod.fresh("g")
                 sc.emit("%s = %s[%d]" % (g, lst, i))
                 self.call_func_line(sc, g, "stored-list-read", "local")
+            return True
+        if which == "list-loop":
+            fs = self.visible(sc, "func")
+            if not fs or sc.depth >= 2:
+                return False
+            n = ch.pick([2, 2, 3])
+            refs = [self.ref(sc, ch.pick(fs), value_use=True)[0] for _ in range(n)]
+            form = ch.pick(["list", "tuple", "dict", "append"])
+            kind = {"list": "stored-list-loop", "tuple": "stored-list-loop", "dict": "stored-dict-loop",
+                    "append": "stored-list-append"}[form]
+            if self.avoided(kind):
+                return False
+            g = sc.mod.fresh("g")
+            if form == "list":
+                lst = sc.mod.fresh("l")
+                sc.emit("%s = [%s]" % (lst, ", ".join(refs)))
+                sc.emit("for %s in %s:" % (g, lst))
+                self.call_func_line(sc.sub(), g, kind, "local")
+            elif form == "tuple":
+                sc.emit("for %s in (%s):" % (g, ", ".join(refs)))
+                self.call_func_line(sc.sub(), g, kind, "local")
+            elif form == "dict":
+                d = sc.mod.fresh("d")
+                keys = ["a", "b", "c"][:n]
+                sc.emit("%s = {%s}" % (d, ", ".join('"%s": %s' % (k, r) for k, r in zip(keys, refs))))
+                sc.emit("for %s in %s:" % (g, d))
+                self.call_func_line(sc.sub(), "%s[%s]" % (d, g), kind, "local")
+            else:
+                lst = sc.mod.fresh("l")
+                sc.emit("%s = []" % lst)
+                for r in refs:
+                    sc.emit("%s.append(%s)" % (lst, r))
+                self.call_func_line(sc, "%s[%d]" % (lst, ch.int(0, n - 1)), kind, "local")
+            return True
+        if which == "obj-loop":
+            cs = self.visible(sc, "class", lambda c: self.init_info(c)[1] in (None, "plain", "super", "explicit")
+                              and self.class_via(c, "local") != "module-attribute-base")
+            if len(cs) < 1 or sc.depth >= 2 or self.avoided("method-on-list-element"):
+                return False
+            name = ch.pick(METHOD_NAMES)
+            cs = [c for c in cs if self.find_method(c, name) and self.find_method(c, name)[0].methods[name]["flavour"] == "plain"
+                  and not self.diamond_differs(c, name)]
+            if not cs:
+                return False
+            objs = [self.construct(sc, ch.pick(cs)) for _ in range(ch.pick([1, 2, 2]))]
+            o = sc.mod.fresh("o")
+            sc.emit("for %s in [%s]:" % (o, ", ".join(objs)))
+            inner = sc.sub()
+            v = sc.mod.fresh("v")
+            inner.emit("%s = %s.%s(%s)" % (v, o, name, self.arg(sc)), "method-on-list-element", "local")
             return True
         if which == "dict":
             fs = self.visible(sc, "func")
@@ -945,7 +1028,7 @@ class Gen:
                 return False
             cls = ch.pick(cs)
             o = self.construct(sc, cls)
-            via = self.ref(sc, cls)[1]
+            via = self.ctor_via
             if ch.chance(40) and not self.avoided("stored-field"):
                 self.call_func_line(sc, "%s.cb" % o, "stored-field", "local")
             else:
@@ -1094,9 +1177,17 @@ class Gen:
         nfiles = ch.pick({1: [1], 2: [1, 2, 2], 3: [1, 2, 2, 3, 3]}[self.max_files])
         names = {1: ["main"], 2: ["hlpa", "main"], 3: ["hlpb", "hlpa", "main"]}[nfiles]
         counter = [0]
+        self.layout = ch.pick(["flat", "flat", "flat", "package"]) if nfiles > 1 else "flat"
         self.theme = ch.pick(["mixed", "mixed", "classes", "classes", "values"])
+        if self.no_classes and self.theme == "classes":
+            self.theme = "values"
         self.def_types, self.scenarios = THEMES[self.theme]
-        self.mods = [Mod(n, i, counter) for i, n in enumerate(names)]
+        if self.no_classes:
+            self.stepped["object-call(p2)/*"] = self.stepped.get("object-call(p2)/*", 0) + 1
+            self.def_types = [t for t in self.def_types if t not in CLASS_DEF_TYPES] or ["func"]
+            self.scenarios = [t for t in self.scenarios if t not in CLASS_SCENARIOS]
+        self.mods = [Mod(n, i, counter, pkg="pkg" if (self.layout == "package" and n != "main") else None)
+                     for i, n in enumerate(names)]
         for mod in self.mods:
             is_main = mod.name == "main"
             ndefs = ch.int(2, 5) if is_main or nfiles == 1 else ch.int(1, 4)
@@ -1148,6 +1239,8 @@ class Gen:
                 if ln.kind is not None:
                     kinds["%s:%d" % (mod.file, i + 1)] = [ln.kind, ln.via or "local"]
             files[mod.file] = "\n".join(text) + "\n"
+            if mod.pkg:
+                files[mod.pkg + "/__init__.py"] = ""
             for i, ln in enumerate(lines):
                 pos[id(ln)] = (mod.file, i + 1)
         # a self-call is labelled by its lexical class; the edges it has to overriding methods of subclasses get an
@@ -1171,22 +1264,34 @@ class Gen:
         return {"files": files, "main": "main.py", "kinds": kinds, "stepped": dict(self.stepped)}
 
 
+CLASS_DEF_TYPES = {"class", "diamond", "recv", "objfactory"}
+CLASS_SCENARIOS = {"method", "cbclass", "recv", "objfactory", "classattr", "obj-loop", "field"}
+# kinds whose callee is reached through a class or an instance (one root-cause family under --enable-p2)
+OBJECT_KINDS = {
+    "constructor", "constructor-inherited-init", "method", "inherited-method", "overriding-method", "self-method",
+    "self-inherited-method", "self-dispatch-subclass", "method-on-param", "method-on-returned", "method-on-list-element",
+    "callback-bound-method", "stored-field", "stored-field-self", "recursive-method", "super-init", "super-method",
+    "explicit-base-init", "staticmethod", "classmethod", "class-attr-method", "diamond-method", "diamond-init",
+    "diamond-class-attr",
+}
+
 THEMES = {
     "mixed": (
         ["func", "func", "func", "ho", "ho", "factory", "factory", "class", "class", "class", "class", "rec", "recv",
          "objfactory", "diamond"],
         ["func", "func", "func", "method", "method", "method", "callback", "callback", "callback", "factory",
          "factory", "alias", "list", "dict", "field", "cbclass", "recv", "objfactory", "rec", "rec", "classattr",
-         "lambda", "nested", "cond-alias", "wrap-if", "wrap-loop", "wrap-try"]),
+         "lambda", "nested", "cond-alias", "wrap-if", "wrap-loop", "wrap-try", "list-loop", "obj-loop"]),
     "classes": (
         ["func", "class", "class", "class", "class", "class", "diamond", "recv", "recv", "objfactory", "ho", "rec"],
         ["func", "method", "method", "method", "method", "method", "method", "recv", "recv", "objfactory",
-         "objfactory", "cbclass", "cbclass", "classattr", "callback", "field", "wrap-if", "wrap-loop", "wrap-try"]),
+         "objfactory", "cbclass", "cbclass", "classattr", "callback", "field", "wrap-if", "wrap-loop", "wrap-try",
+         "obj-loop", "obj-loop"]),
     "values": (
         ["func", "func", "func", "ho", "ho", "ho", "factory", "factory", "factory", "class", "rec"],
         ["func", "callback", "callback", "callback", "factory", "factory", "factory", "alias", "list", "list", "dict",
          "dict", "field", "field", "cond-alias", "cond-alias", "lambda", "nested", "nested", "rec", "wrap-if",
-         "wrap-loop", "wrap-try"]),
+         "wrap-loop", "wrap-try", "list-loop", "list-loop"]),
 }
 
 
@@ -1194,7 +1299,7 @@ def random_project(seed, **kw):
     return Gen(RandomChooser(seed), **kw).build()
 
 
-def projects(avoid=(), extended=True, max_files=3):
+def projects(avoid=(), extended=True, max_files=3, no_classes=False):
     """Hypothesis strategy producing case dicts."""
     from hypothesis import strategies as st
 
@@ -1203,7 +1308,7 @@ def projects(avoid=(), extended=True, max_files=3):
         # One 48-bit integer drawn from Hypothesis seeds a deterministic chooser: drawing every choice separately
         # makes Hypothesis favour the all-smallest programs and a third of the cases come out as duplicates.
         seed = draw(st.integers(0, 2 ** 48 - 1))
-        case = Gen(RandomChooser(seed), avoid=avoid, extended=extended, max_files=max_files).build()
+        case = Gen(RandomChooser(seed), avoid=avoid, extended=extended, max_files=max_files, no_classes=no_classes).build()
         case["gen_seed"] = seed
         return case
     return s()
